@@ -124,8 +124,10 @@ def run_check(pid: str, tier: str, seed: int, only_shards: list[dict] | None = N
     finally:
         shutil.rmtree(tmp, ignore_errors=True)
 
-    for d in merged.shards_failed:
+    for d in merged.shards_failed[:2]:
         inconclusive.append(f"harness crash in shard {json.dumps(d['shard'])[:200]}: {d['crash'][-600:]}")
+    if len(merged.shards_failed) > 2:
+        inconclusive.append(f"{len(merged.shards_failed) - 2} more shard(s) crashed")
     for h in merged.harness_errors[:3]:
         inconclusive.append(f"harness self-check failed: {h}")
 
